@@ -21,6 +21,8 @@ class Scheduler(object):
         self.followed = []        # the order actually taken
         self.deviations = 0       # schedule entries skipped because the thread had already finished
         self.expected = set(schedule)
+        self.free = False         # set once the schedule turned out not to be realisable (a thread blocked outside a gate,
+        self.infeasible = False   # e.g. on a lock held by a parked thread): the gates then let everybody through
 
     # -- called from worker threads
     def _turn(self, p):
@@ -37,7 +39,7 @@ class Scheduler(object):
 
     def gate(self):
         p = getattr(self.tls, 'p', None)
-        if p is None:
+        if p is None or self.free:
             return
         with self.cv:
             if self.running == p:
@@ -45,7 +47,18 @@ class Scheduler(object):
             self.waiting.add(p)
             self.cv.notify_all()
             while not self._turn(p):
+                if self.free:
+                    self.waiting.discard(p)
+                    return
                 if not self.cv.wait(self.timeout):
+                    if getattr(self, 'release_on_stall', False):
+                        # the thread whose turn it is does not arrive at a gate: it is blocked on something a parked thread
+                        # holds (a lock) - this interleaving cannot happen; let the threads finish in whatever order they can
+                        self.infeasible = True
+                        self.free = True
+                        self.waiting.discard(p)
+                        self.cv.notify_all()
+                        return
                     raise Deadlock('thread %s waited too long (idx=%d, waiting=%s)' % (p, self.idx, sorted(self.waiting)))
             self.waiting.discard(p)
             if self.idx < len(self.schedule):
